@@ -5,6 +5,7 @@ import Nstd.Path.FsCopy
 import Nstd.Path.FsRename
 import Nstd.Path.FsCreateOk
 import Nstd.Path.FsRoundtrip
+import Nstd.Path.FsWf
 /-
   Property C19, file-system part: theorems about the algorithms of File.cpp / Directory.cpp
   (Nstd/Path/FsLib.lean) over the ASSUMED POSIX semantics of Nstd/Path/Fs.lean, for all worlds
@@ -172,6 +173,45 @@ theorem unlink_removes_exactly_tree (fs : Fs) (dir : Bytes) (d : CPath)
 theorem unlink_keeps_wellformed (fs : Fs) (dir : Bytes) (recursive : Bool) (hwf : WF fs) :
     WF (dirUnlinkTop fs dir recursive).1 :=
   dirUnlink_wf _ recursive fs dir hwf
+
+/-- Every history keeps the world well-formed: starting from the initial world of the correspondence run (or
+    any world satisfying the invariant), after ANY sequence of operations — raw mkdir/creat/symlink,
+    Directory::create (with faults), Directory::unlink, Directory::purge, File::unlink, File::rename (files,
+    links and directory subtrees), File::copy (with faults), File sessions — names are names, no path is
+    stored twice, every parent is a directory, and the working directory is a directory. -/
+theorem wf_run (ops : List FsOp) : WF (fsRun initFs ops) ∧ (fsRun initFs ops).get cwd = some .dir := by
+  have h0 : Inv initFs := ⟨⟨by unfold NamesOk IsName; decide, by unfold NoDupKeys; decide, by unfold ParentsOk; decide⟩,
+    by decide⟩
+  exact fsRun_inv ops initFs h0
+
+theorem wf_step (fs : Fs) (op : FsOp) (h : WF fs ∧ fs.get cwd = some .dir) :
+    WF (fsApply fs op) ∧ (fsApply fs op).get cwd = some .dir :=
+  fsApply_inv fs h op
+
+/-- the theorems that assume a well-formed world, as facts about all histories: after any history,
+    recursive unlink of an existing plain directory removes exactly its tree … -/
+theorem history_unlink_removes_exactly_tree (ops : List FsOp) (dir : Bytes) (d : CPath)
+    (hpp : PlainParent (fsRun initFs ops) dir d) (hg : (fsRun initFs ops).get d = some .dir)
+    (hcw : d.isPrefixOf cwd = false) :
+    (dirUnlinkTop (fsRun initFs ops) dir true).2 = true ∧
+    ∀ q, (d <+: q → (dirUnlinkTop (fsRun initFs ops) dir true).1.get q = none) ∧
+         (¬ (d <+: q) → (dirUnlinkTop (fsRun initFs ops) dir true).1.get q = (fsRun initFs ops).get q) :=
+  unlink_removes_exactly_tree _ dir d (wf_run ops).1 hpp hg hcw
+
+/-- … any Directory::unlink stays inside the tree … -/
+theorem history_unlink_never_follows_symlink_out (ops : List FsOp) (dir : Bytes) (d : CPath) (recursive : Bool)
+    (hpp : PlainParent (fsRun initFs ops) dir d) :
+    ∀ q, ¬ (d <+: q) → (dirUnlinkTop (fsRun initFs ops) dir recursive).1.get q = (fsRun initFs ops).get q :=
+  unlink_never_follows_symlink_out _ dir d recursive (wf_run ops).1.names hpp
+
+/-- … and a successful rename of a file or link moves exactly that entry. -/
+theorem history_rename_bytes_exact (ops : List FsOp) (frm to : Bytes) (fie : Bool) (pf : CPath) (e : Entry)
+    (hsrc : resolve (fsRun initFs ops) frm false = .found pf e) (he : e ≠ .dir)
+    (h : (fileRename (fsRun initFs ops) frm to fie).2 = true) :
+    ∃ pt, pt ≠ [] ∧ (fileRename (fsRun initFs ops) frm to fie).1.get pt = some e ∧
+      (pt ≠ pf → (fileRename (fsRun initFs ops) frm to fie).1.get pf = none) ∧
+      (∀ q, q ≠ pt → q ≠ pf → (fileRename (fsRun initFs ops) frm to fie).1.get q = (fsRun initFs ops).get q) :=
+  rename_bytes_exact _ frm to fie (wf_run ops).1 pf e hsrc he h
 
 /-! non-vacuity -/
 /-- a world with a tree `/s/a` (file, sub-directory with a file, link to the outside directory `/o/od`) -/
